@@ -330,6 +330,21 @@ class _Sym:
                 return self.expr(e.args[0], env)
             helper = self._helper(e)
             if helper is not None:
+                # arguments by parameter (positional, keyword, keyword-only - in whatever order the helper declares them)
+                hp = [a.arg for a in helper.node.args.args + helper.node.args.kwonlyargs]
+                if helper.cls is not None and hp and hp[0] in ("self", "cls"):
+                    hp = hp[1:]
+                bound: Dict[str, str] = {}
+                for p_, a in zip(hp, e.args):
+                    bound[p_] = self.expr(a, env)
+                for k in e.keywords:
+                    if k.arg in hp and k.arg not in bound:
+                        bound[k.arg] = self.expr(k.value, env)
+                if len(bound) == len(hp) and not any(isinstance(a, ast.Starred) for a in e.args):
+                    chained = self.concatenation(helper, bound)
+                    if chained is not None:
+                        return chained
+                    return self.generator(helper, [bound[p_] for p_ in hp])
                 return self.generator(helper, [self.expr(a, env) for a in e.args])
             return f"?{short(e, 50)}"
         if isinstance(e, (ast.ListComp, ast.GeneratorExp)) and len(e.generators) == 1:
@@ -360,9 +375,27 @@ class _Sym:
             return site.callees[0]
         return None
 
+    def concatenation(self, helper: FuncInfo, bound: Dict[str, str]) -> Optional[str]:
+        """A helper whose body is one loop per parameter, each yielding every element (`async for x in head: yield x` ;
+        `async for x in tail: yield x`): the concatenation of its arguments in that order."""
+        body = _strip_docstring(helper.node.body)
+        order: List[str] = []
+        for st in body:
+            if not (isinstance(st, (ast.For, ast.AsyncFor)) and not st.orelse and isinstance(st.target, ast.Name) and len(st.body) == 1
+                    and isinstance(st.body[0], ast.Expr) and isinstance(st.body[0].value, ast.Yield) and path_of(st.body[0].value.value) == st.target.id
+                    and path_of(st.iter) in bound):
+                return None
+            order.append(path_of(st.iter) or "")
+        if len(order) < 2 or sorted(order) != sorted(bound):  # noqa: PLR2004
+            return None
+        out = bound[order[0]]
+        for p_ in order[1:]:
+            out = f"concat({out}, {bound[p_]})"
+        return out
+
     def generator(self, helper: FuncInfo, args: List[str]) -> str:
         """`for x in P: [if x.K not in C: continue] yield x`  ->  keep(P, K, C)."""
-        params = [a.arg for a in helper.node.args.args]
+        params = [a.arg for a in helper.node.args.args + helper.node.args.kwonlyargs]
         if helper.cls is not None and params and params[0] in ("self", "cls"):
             params = params[1:]
         if len(params) != len(args):
